@@ -2,6 +2,7 @@ package props
 
 import (
 	"fmt"
+	"go/token"
 	"go/types"
 	"sort"
 	"strings"
@@ -125,4 +126,46 @@ func c06VerifiersWired(r *Report) {
 	if n == 0 {
 		r.Lost("C06.verifiers-wired", rule, "no production call of dag.NewState found")
 	}
+}
+
+// c06KeyAsOfPrevs: every key resolution for transaction signatures names a source transaction (one of the prevs).
+func c06KeyAsOfPrevs(r *Report) {
+	p := r.P
+	rule := "ARG: the signer's key is resolved as of a referenced transaction (ResolveMetadata.SourceTransaction set) — never from the latest document"
+	key := "C06.keys.as-of-prevs"
+	fn := p.Func("network/dag", "SourceTXKeyResolver", "ResolvePublicKey")
+	if fn == nil {
+		r.Lost(key, rule, "SourceTXKeyResolver.ResolvePublicKey not found")
+		return
+	}
+	calls := Calls(fn, Fn("network/dag", "", "resolvePublicKey"))
+	r.Sites += len(calls)
+	if len(calls) == 0 {
+		r.Lost(key, rule, "no resolvePublicKey call")
+		return
+	}
+	for _, ci := range calls {
+		arg := CallArg(ci.Common(), 2)
+		ok := false
+		if u, isU := arg.(*ssa.UnOp); isU {
+			if al, isA := u.X.(*ssa.Alloc); isA {
+				for _, ref := range *al.Referrers() {
+					fa, isFa := ref.(*ssa.FieldAddr)
+					if !isFa || !FieldPathEnds(&ssa.UnOp{Op: token.MUL, X: fa}, "SourceTransaction") {
+						continue
+					}
+					for _, r2 := range *fa.Referrers() {
+						if st, isSt := r2.(*ssa.Store); isSt && !IsNilConst(st.Val) {
+							ok = true
+						}
+					}
+				}
+			}
+		}
+		if !ok {
+			r.Bad(key, rule, p.Pos(ci.Pos()), "resolvePublicKey is called without a SourceTransaction: a key added after the referenced history would be accepted")
+			return
+		}
+	}
+	r.OK(key, rule, p.Pos(fn.Pos()), fmt.Sprintf("%d call(s), each with SourceTransaction", len(calls)), true)
 }
